@@ -27,7 +27,7 @@ def last_case(trace_path):
 
 
 def run_cases(exe, mkargs, lo, hi, trace_path, case_index, timeout=600,
-              max_crashes=40, env=None):
+              max_crashes=40, env=None, resume=None):
     """Run driver cases lo..hi-1 appending to trace_path.  mkargs(a, b) gives
     the argv tail for the half-open range; case_index(case_id) recovers the
     integer index of a case id.  On a crash (sanitizer report, signal) the
@@ -57,18 +57,23 @@ def run_cases(exe, mkargs, lo, hi, trace_path, case_index, timeout=600,
                 os.unlink(tp)
             break
         cid = last_case(tp)
+        nxt = None
+        if resume is not None and os.path.exists(tp):
+            # resume(trace_part_path) -> (case id of the crashed case, index
+            # of the first case to run next)
+            cid, nxt = resume(tp)
         if os.path.exists(tp):
             os.unlink(tp)
         crashes.append({"case": cid, "rc": rc, "stderr": err[-6000:]})
         if cid is None or len(crashes) >= max_crashes:
             crashes[-1]["gave_up"] = True
             break
-        a = case_index(cid) + 1
+        a = nxt if nxt is not None else case_index(cid) + 1
     return crashes
 
 
 def run_sharded(exe, mkargs, total, workdir, name, case_index, nshards=None,
-                timeout=900, env=None):
+                timeout=900, env=None, resume=None):
     """Split cases 0..total-1 over processes.  Returns (trace_paths, crashes)."""
     nshards = nshards or min(vlib.NCPU, max(1, total // 50))
     nshards = max(1, min(nshards, total))
@@ -82,7 +87,7 @@ def run_sharded(exe, mkargs, total, workdir, name, case_index, nshards=None,
     def work(i):
         lo, hi = bounds[i]
         return run_cases(exe, mkargs, lo, hi, paths[i], case_index,
-                         timeout=timeout, env=env)
+                         timeout=timeout, env=env, resume=resume)
 
     crashes = []
     with concurrent.futures.ThreadPoolExecutor(nshards) as ex:
